@@ -432,7 +432,7 @@ func (e *Engine) mergeStates(n0 int, sts []*State) *State {
 			if t, ok := s.heap[k]; ok {
 				ts[i] = t
 			} else if so, ok := e.heapSorts[k]; ok {
-				ts[i] = e.heapInit(k, so, false)
+				ts[i] = e.heapLazy(m, k, so, lazySeq(k, s.pending, s.allSeq, s.allPrev, s.allExcept))
 			} else {
 				return nil
 			}
@@ -453,6 +453,45 @@ func (e *Engine) mergeStates(n0 int, sts []*State) *State {
 			}
 		}
 		m.heap[k] = e.joinTerm(m, guards, ts, k)
+	}
+	// havocs of arrays not materialized yet (State.pending): where the merged paths disagree, the array is treated as
+	// havocked at the join (over-approximation)
+	{
+		maxSeq := 0
+		for _, s := range sts {
+			if s.havocSeq > maxSeq {
+				maxSeq = s.havocSeq
+			}
+		}
+		m.havocSeq = maxSeq + 1
+		pk := map[string]bool{}
+		for _, s := range sts {
+			for k := range s.pending {
+				pk[k] = true
+			}
+		}
+		m.pending = map[string]int{}
+		for k := range pk {
+			if _, done := m.heap[k]; done {
+				continue
+			}
+			v, same := sts[0].pending[k], true
+			for _, s := range sts[1:] {
+				if s.pending[k] != v {
+					same = false
+				}
+			}
+			if same {
+				m.pending[k] = v
+			} else {
+				m.pending[k] = m.havocSeq
+			}
+		}
+		for _, s := range sts[1:] {
+			if s.allSeq != sts[0].allSeq || s.allPrev != sts[0].allPrev || len(s.allExcept) != len(sts[0].allExcept) {
+				m.allSeq, m.allPrev, m.allExcept = m.havocSeq, 0, nil
+			}
+		}
 	}
 	// frames: registers and ghosts
 	for fi, mf := range m.frames {
